@@ -40,6 +40,7 @@ func vUFBytes(name string, in []byte, outLen int) []byte
 func vSupportSweep(label string, e []byte, w int)
 func vBufClone(b []byte) []byte
 func vFailedCount() int
+func vInverseTables(a string, b []byte) bool
 func vUF64(name string, a, b, c uint64) uint64
 func vWatchOff()
 func vWatchOn()
@@ -206,6 +207,7 @@ func vTry(f func()) (panicked bool) {
 func vNote(s string) {}
 func vBufClone(b []byte) []byte { return append([]byte(nil), b...) }
 func vFailedCount() int         { return len(vFailed) }
+func vInverseTables(a string, b []byte) bool { return true }
 func vUF64(name string, a, b, c uint64) uint64 {
 	h := uint64(1469598103934665603)
 	for _, x := range []uint64{a, b, c} {
